@@ -50,6 +50,10 @@ def generate(seed, tier):
             tp["args"]["log_msg"] = r.choice(("plain", "d={depth}", "bad {nosuch} {depth}", "{{x}}"))
         if r.random() < 0.3:
             tp["args"]["frame_type"] = r.choice(("all_frame", "no_frame"))
+        if r.random() < 0.25:
+            # deferred: collected at the call line, completed (with the returned value) and handed over when it ends
+            tp["line"] = "midcall"
+            tp["args"]["stage"] = "line_capture"
         tps.append(tp)
     return {"prog": {"seed": seed, "name": "simval_%d" % (seed % 5), "opts": opts}, "tps": tps,
             "threads": [r.choice((1, 2))] if r.random() < 0.7 else [1, 1], "auth": r.choice(AUTHS),
